@@ -309,7 +309,13 @@ func (p *simSource) Stop(ctx context.Context, _ pconnector.SourceStopRequest) (p
 	}
 	var pos opencdc.Position
 	if sess.stopAt >= 0 && (len(sess.emitted) > 0 || sess.stopAt >= sess.next) {
-		pos = append(pos, s.recs[sess.stopAt].pos...)
+		at := sess.stopAt
+		if sess.stopAt == sess.next-1 && len(sess.emitted) > 0 {
+			// nothing more is promised: the last position is that of the record handed over last
+			// (after a hostile re-send that is the re-sent record, not the highest one)
+			at = sess.emitted[len(sess.emitted)-1]
+		}
+		pos = append(pos, s.recs[at].pos...)
 	} else {
 		// nothing emitted in this session and nothing promised
 		sess.stopAt = sess.next - 1
@@ -350,7 +356,7 @@ type simSrcStream struct {
 	ctx context.Context
 }
 
-func (s *simSrcStream) bind(p *simSource, ctx context.Context) { s.p, s.ctx = p, ctx }
+func (s *simSrcStream) bind(p *simSource, ctx context.Context)   { s.p, s.ctx = p, ctx }
 func (s *simSrcStream) Client() pconnector.SourceRunStreamClient { return s }
 func (s *simSrcStream) Server() pconnector.SourceRunStreamServer { panic("sim: server side unused") }
 
@@ -450,11 +456,11 @@ func (s *simSrcStream) Send(req pconnector.SourceRunRequest) error {
 // ---------------------------------------------------------------- destination system
 
 type pendingWrite struct {
-	id  RecID
-	ok  bool // identity parsed
-	pos opencdc.Position
-	emb RecID // DLQ: embedded original
-	embOK bool
+	id      RecID
+	ok      bool // identity parsed
+	pos     opencdc.Position
+	emb     RecID // DLQ: embedded original
+	embOK   bool
 	errText string // DLQ: nack error text carried
 	nodeID  string
 }
@@ -596,9 +602,11 @@ type simDstStream struct {
 	ctx context.Context
 }
 
-func (s *simDstStream) bind(p *simDest, ctx context.Context)            { s.p, s.ctx = p, ctx }
-func (s *simDstStream) Client() pconnector.DestinationRunStreamClient   { return s }
-func (s *simDstStream) Server() pconnector.DestinationRunStreamServer   { panic("sim: server side unused") }
+func (s *simDstStream) bind(p *simDest, ctx context.Context)          { s.p, s.ctx = p, ctx }
+func (s *simDstStream) Client() pconnector.DestinationRunStreamClient { return s }
+func (s *simDstStream) Server() pconnector.DestinationRunStreamServer {
+	panic("sim: server side unused")
+}
 
 func (s *simDstStream) Send(req pconnector.DestinationRunRequest) error {
 	w, sys, sess := s.p.w(), s.p.sys, s.p.sess
